@@ -337,7 +337,29 @@ impl<'tcx> Cx<'tcx> {
         if let ty::FnDef(did, _) = *t.kind() {
           o.set("fn", J::str(dpath(tcx, did)));
         }
-        if let Some(si) = c.const_.try_to_scalar_int() {
+        if let rustc_middle::mir::Const::Unevaluated(uv, _) = c.const_ {
+          if uv.promoted.is_none() {
+            o.set("cdef", J::str(dpath(tcx, uv.def)));
+          }
+        }
+        let mut si_opt = c.const_.try_to_scalar_int();
+        if si_opt.is_none() && (t.is_integral() || t.is_bool()) {
+          // a named constant (`const FIRST: i32 = 0;`) is still unevaluated at mir-opt-level 0: evaluate it
+          // (only non-generic integer / bool constants; a failure leaves the operand symbolic)
+          if let rustc_middle::mir::Const::Unevaluated(uv, _) = c.const_ {
+            if uv.args.is_empty() {
+              let tenv = TypingEnv::post_analysis(tcx, body.source.def_id());
+              si_opt = c.const_.try_eval_scalar_int(tcx, tenv);
+              if let Some(si) = si_opt {
+                if t.is_bool() {
+                  o.set("s", J::str(if si.to_bits(si.size()) != 0 { "true" } else { "false" }));
+                  o.set("named", J::str(format!("{}", c.const_)));
+                }
+              }
+            }
+          }
+        }
+        if let Some(si) = si_opt {
           if si.size().bytes() <= 8 {
             o.set("int", J::Int(si.to_bits(si.size()) as i64));
           }
@@ -625,11 +647,19 @@ impl<'tcx> Cx<'tcx> {
       DefKind::Fn => "fn",
       DefKind::AssocFn => "assoc",
       DefKind::Closure => "closure",
+      // named constants: their initialiser is how a `const INITIAL: Option<T> = None;` handed to a cell's constructor is read
+      DefKind::Const { .. } | DefKind::AssocConst { .. } => "const",
       _ => return None,
     };
-    let (steal, _) = tcx.mir_promoted(ldid);
-    let body_ref = steal.borrow();
-    let body: &Body<'tcx> = &body_ref;
+    // (a constant's promoted MIR has already been consumed by const evaluation: read the CTFE body instead)
+    let steal_guard;
+    let body: &Body<'tcx> = if kname == "const" {
+      tcx.mir_for_ctfe(ldid)
+    } else {
+      let (steal, _) = tcx.mir_promoted(ldid);
+      steal_guard = steal.borrow();
+      &steal_guard
+    };
     let tenv = TypingEnv::post_analysis(tcx, did);
 
     let mut o = J::obj();
@@ -696,7 +726,7 @@ impl<'tcx> Cx<'tcx> {
       }
       let (_, ln, _) = span_loc(tcx, ld.source_info.span);
       l.set("line", J::Int(ln as i64));
-      l.set("user", J::Bool(ld.is_user_variable()));
+      l.set("user", J::Bool(kname != "const" && ld.is_user_variable()));
       locals.push(l);
     }
     o.set("locals", J::Arr(locals));
